@@ -81,7 +81,15 @@ def corpus():
              ("whole", {"k": "sig", "n": "bus"})]
     d7 = {"bundles": [], "top": "Top", "modules": [in4, {"name": "Top", "sigs": [{"n": "bus", "w": 4, "port": True, "dir": "none"}], "bundles": [],
           "insts": [{"n": nm, "of": {"k": "module", "name": "In4"}, "conns": [["a", c]]} for nm, c in perms]}]}
-    return [{"design": d7, "style": "proc"}, {"design": d7, "style": "class"}, {"design": d6, "style": "proc"}, {"design": d6, "style": "gen"},
+    # a no-connect on a bundle-valued port: of a plain instance, and of every element of an instance array (named and unnamed)
+    hb = {"name": "HB", "sigs": [], "bundles": [{"n": "bp", "of": "BW", "port": True}],
+          "insts": [{"n": "e1", "of": copy.deepcopy(gen_design.LEAVES[0]), "conns": [["a", {"k": "slice", "p": {"k": "bref", "root": "bp", "path": ["x"]}, "i": {"s": 1, "e": 3, "st": None}}],
+                                                                                      ["b", {"k": "bref", "root": "bp", "path": ["y"]}]]}]}
+    d8 = {"bundles": [bw], "top": "Top", "modules": [hb, {"name": "Top", "sigs": [], "bundles": [],
+          "insts": [{"n": "arr", "array": 3, "of": {"k": "module", "name": "HB"}, "conns": [["bp", {"k": "noconn"}]]},
+                    {"n": "brr", "array": 2, "of": {"k": "module", "name": "HB"}, "conns": [["bp", {"k": "noconn", "name": "open"}]]},
+                    {"n": "one", "of": {"k": "module", "name": "HB"}, "conns": [["bp", {"k": "noconn"}]]}]}]}
+    return [{"design": d8, "style": "proc"}, {"design": d8, "style": "class"}, {"design": d7, "style": "proc"}, {"design": d7, "style": "class"}, {"design": d6, "style": "proc"}, {"design": d6, "style": "gen"},
             {"design": d1, "style": "proc"}, {"design": d2, "style": "proc"}, {"design": d3, "style": "proc"}, {"design": d3, "style": "class"},
             {"design": d4, "style": "proc"}, {"design": d4, "style": "gen"}, {"design": d5, "style": "proc"}, {"design": d5, "style": "class"}]
 
